@@ -6,14 +6,20 @@
 //	pool pkg asm|reasm|reasm0        package under test (reasm0 = reassembly with the upstream FIXME panic;
 //	                                 same real code, the name only selects the Lean model variant)
 //	pool threads n
-//	pool prog <tid> <item>…          item = <pair>:<dir>:<syn|fin|rst> | flush
+//	pool prog <tid> <item>…          item = <pair>:<dir>:<syn|fin|rst|late<ts>> | flush | flushold:<T>:<c>
+//	                                 (late<ts>: FIN, seq 1101, payload "late", seen at time ts — queued behind a
+//	                                 gap; flushold: tcpassembly FlushWithOptions{T, CloseAll: c != 0},
+//	                                 reassembly FlushWithOptions{T, TC: c}; times are ts0 + n seconds, 0..9;
+//	                                 syn/fin/rst are seen at time 5)
 //	pool sched t0 t1 …               -> ok <events…> | map=<n> | <status of each thread>
 //
 // events: n<sid>:<key>@<tid> (factory New), r<sid>@<tid>.<op>/<n> (Reassembled), a<sid>@<tid>.<op>
 // (reassembly Accept), c<sid>@<tid> (ReassemblyComplete), P@<tid> (goroutine panicked).
 // Monitors (independent of the Lean model): panic, overlapping callbacks on one stream, delivery to a
-// stream created for another key, completion count ≠ 1 of a kept stream, deadlock, connection left in
-// the pool after FlushAll.
+// stream created for another key, Reassembled/ReassembledSG on a stream after its ReassemblyComplete,
+// ReassemblyComplete more than once, completion count ≠ 1 of a kept stream after the closing FlushAll,
+// pages still (or doubly) accounted after it, an un-nested remove (reassembly FlushWithOptions) that deletes
+// a map entry, deadlock, connection left in the pool after FlushAll.
 package main
 
 import (
@@ -31,10 +37,15 @@ import (
 
 type item struct {
 	flush bool
+	old   bool // flushold
+	T, C  int  // flushold: T and CloseAll (classic) / TC (reassembly)
 	pair  int
 	dir   int
-	kind  string
+	kind  string // syn fin rst late
+	ts    int    // capture time of the packet (seconds after ts0)
 }
+
+const kindTs0 = 5 // syn / fin / rst are seen at this time
 
 var (
 	curPkg   = "asm"
@@ -112,11 +123,17 @@ func (s *stream) leave() { atomic.StoreInt32(&s.inCb, 0) }
 // object that was removed from the pool (and therefore recycled) after the goroutine had looked it up.
 // It separates the known stale-pointer recycling defect from any other cause of the same symptom.
 func staleSuffix() string {
-	if ctl != nil && ctl.stale {
+	if sfxCtl != nil && sfxCtl.stale {
 		return ":stale"
+	}
+	if sfxCtl != nil && sfxCtl.foreign {
+		return ":frm"
 	}
 	return ""
 }
+
+// sfxCtl: controller of the case being executed, including its (uncontrolled) closing FlushAll.
+var sfxCtl *controller
 
 func (s *stream) checkKey(w *worker, what string) {
 	if w == nil || w.inFlush {
@@ -147,6 +164,11 @@ func (s *stream) reassembled(n int) {
 	if w != nil {
 		s.rec.log(fmt.Sprintf("r%d@%d.%d/%d", s.sid, w.id, w.opIdx, n))
 		s.checkKey(w, "Reassembled")
+	}
+	if s.completes > 0 {
+		finding("pool:"+pkgTag()+":callback-after-complete"+staleSuffix(), fmt.Sprintf("Reassembled on stream s%d (key %d%s) after its ReassemblyComplete", s.sid, s.pair, dirName(s.dir)))
+	}
+	if w != nil {
 		yield("cb", nil) // scheduling point INSIDE the callback: other threads may run now
 	}
 	s.leave()
@@ -155,8 +177,13 @@ func (s *stream) reassembled(n int) {
 func (s *stream) complete() {
 	s.enter("ReassemblyComplete")
 	s.completes++
-	if w := curWorker(); w != nil {
+	w := curWorker()
+	if w != nil {
 		s.rec.log(fmt.Sprintf("c%d@%d", s.sid, w.id))
+		w.segComplete = true
+	}
+	if s.completes > 1 {
+		finding("pool:"+pkgTag()+":completed-twice"+staleSuffix(), fmt.Sprintf("stream s%d (key %d%s) completed %d times", s.sid, s.pair, dirName(s.dir), s.completes))
 	}
 	s.leave()
 }
@@ -243,32 +270,65 @@ func mkPacket(it item) (gopacket.Flow, *layers.TCP) {
 		t.SYN, t.FIN, t.Seq = true, true, 1000
 	case "rst":
 		t.RST, t.Seq = true, 1001
+	case "late":
+		// out of order: behind the gap 1001..1100 whatever the connection has seen
+		t.FIN, t.Seq = true, 1101
+		t.BaseLayer = layers.BaseLayer{Payload: []byte("late")}
 	}
 	return nf, t
 }
+
+func tsOf(n int) time.Time { return ts0.Add(time.Duration(n) * time.Second) }
 
 // ---------------------------------------------------------------- one controlled run
 
 type assembler interface {
 	assemble(it item)
 	flushAll() int
+	flushOld(T, C int)
+	pagesUsed() int
+	connCount() int
 }
 
-type asmA struct{ a *tcpassembly.Assembler }
+type asmA struct {
+	a    *tcpassembly.Assembler
+	pool *tcpassembly.StreamPool
+}
 
 func (x asmA) assemble(it item) {
 	nf, t := mkPacket(it)
-	x.a.AssembleWithTimestamp(nf, t, ts0)
+	x.a.AssembleWithTimestamp(nf, t, tsOf(it.ts))
 }
 func (x asmA) flushAll() int { return x.a.FlushAll() }
+func (x asmA) flushOld(T, C int) {
+	if C != 0 && T%2 == 1 {
+		x.a.FlushOlderThan(tsOf(T)) // = FlushWithOptions{T, CloseAll: true}
+		return
+	}
+	x.a.FlushWithOptions(tcpassembly.FlushOptions{T: tsOf(T), CloseAll: C != 0})
+}
+func (x asmA) pagesUsed() int { return x.a.VerifPagesUsed() }
+func (x asmA) connCount() int { return x.pool.VerifConnCount() }
 
-type reasmA struct{ a *reassembly.Assembler }
+type reasmA struct {
+	a    *reassembly.Assembler
+	pool *reassembly.StreamPool
+}
 
 func (x reasmA) assemble(it item) {
 	nf, t := mkPacket(it)
-	x.a.AssembleWithContext(nf, t, &ctx{gopacket.CaptureInfo{Timestamp: ts0}})
+	x.a.AssembleWithContext(nf, t, &ctx{gopacket.CaptureInfo{Timestamp: tsOf(it.ts)}})
 }
 func (x reasmA) flushAll() int { return x.a.FlushAll() }
+func (x reasmA) flushOld(T, C int) {
+	if T == C && T%2 == 1 {
+		x.a.FlushCloseOlderThan(tsOf(T)) // = FlushWithOptions{T, TC: T}
+		return
+	}
+	x.a.FlushWithOptions(reassembly.FlushOptions{T: tsOf(T), TC: tsOf(C)})
+}
+func (x reasmA) pagesUsed() int { return x.a.VerifPagesUsed() }
+func (x reasmA) connCount() int { return x.pool.VerifConnCount() }
 
 // env is one StreamPool with its Assemblers.  Creating them is expensive (every classic Assembler
 // allocates a 2 MB page cache), so an env is reused by the next case of the same package when the
@@ -289,10 +349,10 @@ func newEnv(pkg string) *env {
 	e := &env{pkg: pkg, fac: &factory{}}
 	if pkg == "asm" {
 		pool := tcpassembly.NewStreamPool(&asmFactory{e.fac})
-		e.mk = func() assembler { return asmA{tcpassembly.NewAssembler(pool)} }
+		e.mk = func() assembler { return asmA{tcpassembly.NewAssembler(pool), pool} }
 	} else {
 		pool := reassembly.NewStreamPool(&reasmFactory{e.fac})
-		e.mk = func() assembler { return reasmA{reassembly.NewAssembler(pool)} }
+		e.mk = func() assembler { return reasmA{reassembly.NewAssembler(pool), pool} }
 	}
 	return e
 }
@@ -309,6 +369,7 @@ func runSchedule(sched []int) string {
 		lib.Stat("outcome:blocked-abort")
 		return "blocked-abort"
 	}
+	lastTrace = nil
 	rec := &recorder{}
 	ev := cached
 	cached = nil
@@ -319,12 +380,12 @@ func runSchedule(sched []int) string {
 	ev.fac.rec = rec
 	mk := func(i int) assembler { return ev.assembler(i) }
 	closer := mk(0) // after the run (all goroutines ended): the closing FlushAll
-	c := &controller{reports: make(chan report), dead: map[interface{}]bool{}, rec: rec, removed: map[interface{}]int{}}
+	c := &controller{reports: make(chan report), dead: map[interface{}]bool{}, rec: rec, removed: map[interface{}]int{}, connCount: closer.connCount}
 	for t := 0; t < nThreads; t++ {
 		w := &worker{id: t, resume: make(chan bool)}
 		c.ws = append(c.ws, w)
 	}
-	ctl = c
+	ctl, sfxCtl = c, c
 	defer func() { ctl = nil }()
 	// start every worker and let it run (alone) up to its first scheduling point: nothing shared is
 	// touched before it
@@ -333,10 +394,13 @@ func runSchedule(sched []int) string {
 		a := mk(t)
 		c.spawn(w, func(w *worker) {
 			for i, it := range prog {
-				w.opIdx, w.inFlush, w.curKey = i, it.flush, [2]int{it.pair, it.dir}
-				if it.flush {
+				w.opIdx, w.inFlush, w.inOld, w.curKey = i, it.flush || it.old, it.old, [2]int{it.pair, it.dir}
+				switch {
+				case it.flush:
 					a.flushAll()
-				} else {
+				case it.old:
+					a.flushOld(it.T, it.C)
+				default:
 					a.assemble(it)
 				}
 			}
@@ -348,6 +412,7 @@ func runSchedule(sched []int) string {
 	if !c.blocked {
 		c.run(sched)
 	}
+	lastTrace = c.trace
 	// per-thread status
 	var sts []string
 	stuck := false
@@ -389,6 +454,8 @@ func runSchedule(sched []int) string {
 	if c.stale {
 		sfx = ":stale"
 		lib.Stat("branch:stale-delivery")
+	} else if c.foreign {
+		sfx = ":frm"
 	}
 	mapSize := -1
 	if clean {
@@ -411,22 +478,38 @@ func runSchedule(sched []int) string {
 				finding("pool:"+pkgTag()+":panic:closing-flush", "closing FlushAll panicked")
 			} else {
 				if r[1] != 0 {
-					finding("pool:"+pkgTag()+":not-removed", fmt.Sprintf("%d connection(s) still in the pool after FlushAll", r[1]))
+					finding("pool:"+pkgTag()+":not-removed"+sfx, fmt.Sprintf("%d connection(s) still in the pool after FlushAll", r[1]))
 				} else {
 					cached = ev
 				}
 				for _, s := range rec.all {
-					if s.completes > 1 {
-						finding("pool:"+pkgTag()+":completed-twice"+sfx, fmt.Sprintf("stream s%d (key %d%s) completed %d times", s.sid, s.pair, dirName(s.dir), s.completes))
-					} else if s.completes == 0 && s.callbacks > 0 {
+					if s.completes == 0 && s.callbacks > 0 {
 						finding("pool:"+pkgTag()+":not-completed"+sfx, fmt.Sprintf("stream s%d (key %d%s) received callbacks but was never completed, even by FlushAll", s.sid, s.pair, dirName(s.dir)))
 					}
+				}
+				// page accounting: every connection is closed now, so every page taken from some
+				// Assembler's page cache has been given back (to the cache of whichever Assembler
+				// closed the connection): the `used` counters add up to zero.
+				used := 0
+				for _, a := range ev.asms {
+					used += a.pagesUsed()
+				}
+				if used != 0 {
+					cached = nil
+				}
+				if used != 0 && sfx == "" { // (a stale-pointer / foreign-remove history loses connections, hence pages: reported by its own findings)
+					finding("pool:"+pkgTag()+":pages-unbalanced", fmt.Sprintf("after the closing FlushAll the page caches of the pool's Assemblers account for %d page(s) in use (want 0)", used))
 				}
 			}
 		case <-time.After(watchdog()):
 			timeouts++
 			finding("pool:"+pkgTag()+":blocked", "closing FlushAll blocks: a connection mutex was left locked")
 		}
+	}
+	if c.foreign {
+		// after the double remove of reassembly's FlushWithOptions the free list may hold an object
+		// twice although the case looks clean from outside: never hand such a pool on to the next case
+		cached = nil
 	}
 	// reply
 	var evs []string
@@ -436,6 +519,27 @@ func runSchedule(sched []int) string {
 		}
 	}
 	out := "ok"
+	if c.foreign {
+		// Known defect pool:reasm:flush-remove-foreign: from the foreign remove on the free list holds a
+		// live object, and what follows depends on byte-level state the model abstracts (the flusher
+		// writes half.nextSeq into an object recycled while it held the mutex).  The case was run to the
+		// end and monitored; the COMPARED observables are cut just before that remove (the model driver
+		// does the same).
+		var cutEvs []string
+		for _, e := range rec.events[:c.frmCut] {
+			if e != "" {
+				cutEvs = append(cutEvs, e)
+			}
+		}
+		if len(cutEvs) > 0 {
+			out += " " + strings.Join(cutEvs, " ")
+		}
+		out += " FRM | map=? | cut"
+		lib.Stat("pkg:" + curPkg)
+		lib.Stat("outcome:cut-at-foreign-remove")
+		lib.Nontrivial()
+		return out
+	}
 	if len(evs) > 0 {
 		out += " " + strings.Join(evs, " ")
 	}
@@ -495,15 +599,45 @@ func parseItem(s string) (item, bool) {
 	if len(f) != 3 {
 		return item{}, false
 	}
-	p, ok1 := lib.Atoi(f[0])
-	d, ok2 := lib.Atoi(f[1])
-	if !ok1 || !ok2 || p < 0 || p > 9 || d < 0 || d > 1 {
+	if f[0] == "flushold" {
+		T, ok1 := atoiStrict(f[1])
+		C, ok2 := atoiStrict(f[2])
+		if !ok1 || !ok2 || T > 9 || C > 9 {
+			return item{}, false
+		}
+		return item{old: true, T: T, C: C}, true
+	}
+	p, ok1 := atoiStrict(f[0])
+	d, ok2 := atoiStrict(f[1])
+	if !ok1 || !ok2 || p > 9 || d > 1 {
 		return item{}, false
+	}
+	if strings.HasPrefix(f[2], "late") {
+		ts, ok := atoiStrict(f[2][4:])
+		if !ok || ts > 9 {
+			return item{}, false
+		}
+		return item{pair: p, dir: d, kind: "late", ts: ts}, true
 	}
 	if f[2] != "syn" && f[2] != "fin" && f[2] != "rst" {
 		return item{}, false
 	}
-	return item{pair: p, dir: d, kind: f[2]}, true
+	return item{pair: p, dir: d, kind: f[2], ts: kindTs0}, true
+}
+
+// atoiStrict: decimal digits only (what Lean's String.toNat? accepts).
+func atoiStrict(s string) (int, bool) {
+	if s == "" || len(s) > 6 {
+		return 0, false
+	}
+	n := 0
+	for _, ch := range s {
+		if ch < '0' || ch > '9' {
+			return 0, false
+		}
+		n = n*10 + int(ch-'0')
+	}
+	return n, true
 }
 
 func exec(a []string) string {
